@@ -5,7 +5,7 @@
 From Coq Require Import List NArith ZArith Bool Arith Lia.
 From BBS Require Import Common.Sx Persist.PBL Persist.PBLProofs Persist.Syncer Persist.SyncerProofs
   Persist.LiveActs Persist.LiveCover Persist.LiveRelease Run.R07 Run.R07MonBase Run.R07MonOps Run.R07MonC123
-  Run.R07MonCov1 Run.R07MonCov2 Run.R07MonOps2 Run.R07MonCov3.
+  Run.R07MonCov1 Run.R07MonCov2 Run.R07MonOps2 Run.R07MonCov3 Run.R07MonC5.
 Import ListNotations.
 Local Open Scope nat_scope.
 
@@ -295,5 +295,55 @@ Proof.
   rewrite Hr. unfold mon07. rewrite (run_ops_marker _ _ _ _ _ Hr).
   intros Hk. apply dedupz_in in Hk. apply Hv. exact Hk.
 Qed.
+
+
+(** ---- all clauses ---- *)
+
+Lemma init_rel5 x0 : initp x0 -> rel5 m0_i x0.
+Proof.
+  intros [P1 P2 P3 P3' P4 P5 P6 P7 P8 P9]. constructor.
+  - unfold pX. destruct P6 as [E|[E|E]]; rewrite E; exact I.
+  - exists None. cbn. splits; auto.
+    + intros k [].
+    + intros j Hj. discriminate.
+    + intros w Hw. discriminate.
+Qed.
+
+Lemma run_sim_all ops : forall hints x m, rel2 (length ops) m x -> rel5 m x -> m_viol m = [] ->
+  exists r, run_ops cfg ops hints x = Ok r /\ m_viol (mon_run (c_interval cfg) m ops r) = [].
+Proof.
+  induction ops as [|op ops IH]; intros hints x m R R5 V.
+  - exists []. split; [reflexivity|exact V].
+  - cbn [run_ops]. cbv zeta. cbn [length] in R.
+    pose proof (r1_good _ _ _ _ _ _ _ (r2_1 _ _ _ _ _ _ _ _ R)) as G.
+    destruct (do_op_tri _ _ _ _ _ op x G) as [x1 [res [Hd T]]]. rewrite Hd.
+    pose proof (tri_good _ _ _ _ _ _ _ _ _ G T) as G1.
+    match goal with |- context [quiesce ?c 64 ?h x1] =>
+      destruct (quiesce_total _ _ _ _ _ h x1 G1) as [x2 [Hq _]]; rewrite Hq;
+      destruct (rel1_step _ _ _ _ _ m x op h x1 res x2 (r2_1 _ _ _ _ _ _ _ _ R) T Hq) as [_ [V2 V1]];
+      destruct (rel2_step _ _ _ _ _ (length ops) m x op h x1 res x2 R T Hd Hq) as [R2 V46];
+      destruct (rel5_step _ _ _ _ _ (length ops) m x op h x1 res x2 R R5 T Hq R2) as [R5' V5] end.
+    assert (V' : m_viol (mon_step (c_interval cfg) m op (enc_obs res x2)) = []).
+    { rewrite mon_step_eq. cbn [m_viol]. unfold ms_viol. rewrite V, V2, V1, V46, V5. reflexivity. }
+    destruct (IH (tl hints) x2 _ R2 R5' V') as [r [Hr Hv]]. rewrite Hr.
+    eexists. split; [reflexivity|]. cbn [mon_run]. exact Hv.
+Qed.
+
+(** THE MONITOR IS SILENT ON THE MODEL: no clause of [mon07] fires on the
+    model's own observation, for every input of the domain and every hint
+    list (the hints only pick the winner of a storeLock tie). *)
+Theorem mon07_silent_on_model_h hints : dom07 = true -> mon07 inp (run07h inp hints) = [].
+Proof.
+  intros Hd. unfold run07h. change (cfg_of (sx_nth inp 0)) with cfg.
+  destruct (init_state true) as [x0 [Hq [R0 P0]]]. rewrite Hq.
+  destruct (run_sim_all (sx_list (sx_nth inp 1)) hints x0 m0_i (init_rel2 true x0 Hd Hq R0 P0) (init_rel5 x0 P0) eq_refl)
+    as [r [Hr Hv]].
+  rewrite Hr. unfold mon07. rewrite (run_ops_marker _ _ _ _ _ Hr).
+  change (sx_list (L r)) with r. fold (inits_i inp). fold (t0_i inp). fold m0_i.
+  change (sx_N (sx_nth (sx_nth inp 0) 0)) with (c_interval cfg). rewrite Hv. reflexivity.
+Qed.
+
+Theorem mon07_silent_on_model_ : dom07 = true -> mon07 inp (run07 inp) = [].
+Proof. apply mon07_silent_on_model_h. Qed.
 
 End Top.
